@@ -198,6 +198,11 @@ def _translate_metadata_to_ds9(region, shape):
     if fill is not None:
         meta['fill'] = int(fill)
 
+    # DS9 reads include=1 / include=0 (True / False are not valid values)
+    include = meta.pop('include', None)
+    if include is not None:
+        meta['include'] = int(include)
+
     if 'text' in meta:
         meta['text'] = f'{{{meta["text"]}}}'
 
